@@ -704,10 +704,17 @@ impl Exec {
                 (Err(e), _) if e == "NoAddressAvailable" => {
                     self.viol(format!("C05/wedged/no-address-although-stored/{tag}"), format!("{} addresses stored for {p}", stored.len()))
                 }
-                (Err(e), _) if e.starts_with("ConnectionLimit") => self.viol(
-                    "C06/capacity-not-released/outbound",
-                    format!("dial() refused with {e} although only {outb} outbound connections are established (max {:?})", self.sc.limits.1),
-                ),
+                (Err(e), _) if e.starts_with("ConnectionLimit") => {
+                    self.viol(
+                        "C06/capacity-not-released/outbound",
+                        format!("dial() refused with {e} although only {outb} outbound connections are established (max {:?})", self.sc.limits.1),
+                    );
+                    // the same observation under C05: a quiescent, unconnected peer cannot be dialed again
+                    self.viol(
+                        "C05/wedged/dial-refused-by-limit-below-capacity",
+                        format!("peer {p} has no open connection and nothing in flight; dial() is refused with {e} although only {outb} outbound connections are established (max {:?})", self.sc.limits.1),
+                    );
+                }
                 (Err(e), _) => self.viol(format!("C05/wedged/dial-error/{e}/{tag}"), format!("peer {p}: {e}")),
             }
             if self.world.quiescent() {
